@@ -26,6 +26,10 @@ class E3(IOError):
     pass
 
 
+class Never(Exception):
+    """no exception of a run is an instance of this class: the model's stand-in for a filter that matches nothing"""
+
+
 TYPES = [Exception, ValueError, E1, E2, IOError, E3, E0, EOFError, KeyError]
 
 
@@ -34,7 +38,8 @@ def run(chk):
     from minecraft.networking.connection import Connection
     from minecraft.networking.packets import clientbound as cb
     from minecraft.exceptions import LoginDisconnect
-    types = TYPES + [LoginDisconnect]
+    types = TYPES + [LoginDisconnect, Never]
+    never_idx = len(types) - 1
     rng, th = chk.rng, chk.tier == 'thorough'
     reqs, metas = [], []
     for cfg in range(2500 if th else 400):
@@ -125,10 +130,19 @@ def run(chk):
                         e = raise_cls('handler %d' % i)
                         excs[200 + i] = e
                         raise e
-                conn.register_exception_handler(h, *[types[j] for j in flt], early=early)
+                # the types as Python's except / isinstance take them: separate arguments, or nested tuples of types; a tuple that
+                # names no type at all matches nothing (it is not the same as giving no types, which catches everything)
+                arg_shape = rng.choice(['flat', 'flat', 'nested', 'empty-tuple'])
+                if arg_shape == 'empty-tuple':
+                    flt = [never_idx]
+                    conn.register_exception_handler(h, rng.choice([(), ((), ()), ((), ((),))]), early=early)
+                elif arg_shape == 'nested' and len(flt) >= 2:
+                    conn.register_exception_handler(h, (types[flt[0]], tuple(types[j] for j in flt[1:])), early=early)
+                else:
+                    conn.register_exception_handler(h, *[types[j] for j in flt], early=early)
                 handlers.append((i, flt, beh, reconn, raise_cls))
                 order = [len(handlers) - 1] + order if early else order + [len(handlers) - 1]
-                if beh == 'ret' and not reconn and rng.random() < 0.2:
+                if beh == 'ret' and not reconn and arg_shape == 'flat' and rng.random() < 0.2:
                     # the same function registered once more with the same types (a second, independent clause of the chain)
                     early2 = rng.random() < 0.5
                     conn.register_exception_handler(h, *[types[j] for j in flt], early=early2)
